@@ -78,18 +78,23 @@ async fn declared_path_without_links(project_dir: &Path, path: &Path) -> Option<
 }
 
 async fn clean_path(path: &Path) -> Result<()> {
-    if path.exists().await {
-        if path.is_file().await {
-            fs::remove_file(&path)
-                .await
-                .with_context(|| format!("Failed to remove file {}", path.display()))?;
-        } else if path.is_dir().await {
-            fs::remove_dir_all(&path)
-                .await
-                .with_context(|| format!("Failed to remove directory {}", path.display()))?;
-        } else {
-            log::warn!("Failed to remove {}", path.display())
-        }
+    // The declared path itself is what goes: a symbolic link is removed as a link, whether or
+    // not it still points at something.
+    let metadata = match fs::symlink_metadata(path).await {
+        Ok(metadata) => metadata,
+        Err(_) => return Ok(()),
+    };
+
+    if metadata.is_dir() {
+        fs::remove_dir_all(&path)
+            .await
+            .with_context(|| format!("Failed to remove directory {}", path.display()))?;
+    } else if metadata.is_file() || metadata.file_type().is_symlink() {
+        fs::remove_file(&path)
+            .await
+            .with_context(|| format!("Failed to remove file {}", path.display()))?;
+    } else {
+        log::warn!("Failed to remove {}", path.display())
     }
 
     Ok(())
